@@ -210,7 +210,7 @@ Qed.
 Lemma poll_running_inv cf s i start tr b :
   1 <= permitted cf -> Inv cf s -> Inv cf (fst (poll_running cf s i start tr b)).
 Proof.
-  intros Hp Hinv. unfold poll_running. destruct (gate s i) as [[f|f|]|]; cbn [fst].
+  intros Hp Hinv. unfold poll_running. destruct (gate s i) as [[f|f| |]|]; cbn [fst].
   - eapply inv_frame with (s := gsync (phase (circ s)) (s <| circ := record (now s) cf f (now s - start) (circ s) |>)).
     + apply inv_gsync_trans; [exact Hp|exact Hinv|apply record_spec].
     + unfold gsync. cbn. destruct (_ =? _); reflexivity.
@@ -229,6 +229,7 @@ Proof.
     + destruct tr as [p|]; cbn; [destruct (p =? phase (circ s))|]; reflexivity.
     + destruct tr as [p|]; cbn; [destruct (p =? phase (circ s))|]; reflexivity.
     + destruct tr as [p|]; cbn; [destruct (p =? phase (circ s))|]; reflexivity.
+  - eapply inv_frame; [exact Hinv|reflexivity..].
   - exact Hinv.
 Qed.
 
@@ -342,7 +343,7 @@ Proof.
     destruct (try_acquire_spec (now s) cf (circ s)) as (_ & Hrej & _). cbn zeta in Hrej.
     destruct (Hrej Hop Hw) as [Hok Hc].
     destruct (try_acquire (now s) cf (circ s)) as [c' ok]. cbn in Hok. subst. reflexivity.
-  - unfold poll_running. cbn. destruct (gate s i) as [[f|f|]|]; reflexivity.
+  - unfold poll_running. cbn. destruct (gate s i) as [[f|f| |]|]; reflexivity.
   - reflexivity.
   - reflexivity.
 Qed.
@@ -403,10 +404,11 @@ Proof. unfold gsync. destruct (_ =? _); reflexivity. Qed.
 Lemma stamp_poll_running cf s i start tr b :
   stamp (now s) (circ s) (circ (fst (poll_running cf s i start tr b))).
 Proof.
-  unfold poll_running. destruct (gate s i) as [[f|f|]|]; cbn [fst].
+  unfold poll_running. destruct (gate s i) as [[f|f| |]|]; cbn [fst].
   - rewrite circ_gsync. cbn. apply stamp_of_trans. apply record_spec.
   - rewrite circ_gsync. cbn. apply stamp_of_trans. apply record_spec.
   - cbn. apply stamp_drop_trial.
+  - cbn. apply stamp_refl.
   - apply stamp_refl.
 Qed.
 
@@ -532,11 +534,12 @@ Lemma ghand_poll_running cf s i start tr b :
   ghand s < ghand (fst (poll_running cf s i start tr b)) ->
   r (snd (poll_running cf s i start tr b)) = 5.
 Proof.
-  intros H0. unfold poll_running. destruct (gate s i) as [[f|f|]|]; cbn [fst snd].
+  intros H0. unfold poll_running. destruct (gate s i) as [[f|f| |]|]; cbn [fst snd].
   - match goal with |- context [gsync ?o ?x] => pose proof (ghand_gsync o x) as Hg end.
     cbn in Hg. specialize (Hg H0). lia.
   - match goal with |- context [gsync ?o ?x] => pose proof (ghand_gsync o x) as Hg end.
     cbn in Hg. specialize (Hg H0). lia.
+  - reflexivity.
   - reflexivity.
   - lia.
 Qed.
@@ -588,3 +591,1402 @@ Example ex_shielded :
   let s := fold_left (step_st cf) evs init in
   shielded cf s /\ r (snd (poll cf s 2%nat)) = 3.
 Proof. vm_compute. repeat split. Qed.
+
+(* ================= C03: the shield persists (interval form) ================= *)
+Lemma transition_same now s c : state c = s -> transition_to now s c = c.
+Proof.
+  intros H. unfold transition_to. rewrite H.
+  assert (E : cstate_eqb s s = true) by (apply cstate_eqb_eq; reflexivity). rewrite E. reflexivity.
+Qed.
+
+Lemma transition_state now s c : state (transition_to now s c) = s.
+Proof. apply transition_to_spec. Qed.
+
+Lemma record_same_ctl_pre now cf f d c :
+  exists c1, same_ctl c c1 /\
+    record now cf f d c =
+      match state c1 with
+      | HalfOpen =>
+        if f then transition_to now Open c1
+        else let c2 := c1 <| hos := hos c1 + 1 |> in
+             if permitted cf <=? hos c2 then transition_to now Closed c2 else c2
+      | _ => evaluate_window now cf c1
+      end.
+Proof.
+  unfold record.
+  set (c1 := if time_based cf then _ else _).
+  exists c1. split; [|reflexivity].
+  subst c1. destruct (time_based cf).
+  - repeat split.
+  - eapply same_ctl_trans; [|apply slide_count_window_ctl].
+    destruct f, (slow_on cf && (slow_thr cf <=? d)); repeat split.
+Qed.
+
+Lemma evaluate_open now cf c : state c = Open ->
+  state (evaluate_window now cf c) = Open /\ last_change (evaluate_window now cf c) = last_change c.
+Proof.
+  intros H. unfold evaluate_window.
+  set (c1 := if time_based cf then cleanup_old_records now cf c else c).
+  assert (H1 : state c1 = Open /\ last_change c1 = last_change c)
+    by (subst c1; destruct (time_based cf); cbn; auto).
+  destruct (if time_based cf then time_based_stats c1 else (tc c1, fc c1, sc c1, slowc c1)) as [[[a b] d] e].
+  destruct (_ <? minc cf); [exact H1|].
+  destruct (negb (time_based cf) && _); [exact H1|].
+  destruct (_ || _); [|exact H1].
+  rewrite transition_same by apply H1. exact H1.
+Qed.
+
+(* an outcome recorded while the breaker is open (a call admitted earlier completes late)
+   leaves it open and does not restart the wait *)
+Lemma record_open now cf f d c : state c = Open ->
+  state (record now cf f d c) = Open /\ last_change (record now cf f d c) = last_change c.
+Proof.
+  intros H. destruct (record_same_ctl_pre now cf f d c) as (c1 & (A1&A2&A3&A4&A5) & ->).
+  assert (Hs : state c1 = Open) by congruence. rewrite Hs.
+  destruct (evaluate_open now cf c1 Hs) as [E1 E2]. split; congruence.
+Qed.
+
+Lemma shield_persists cf s e :
+  shielded cf s -> e <> ForceClosed -> e <> Reset ->
+  state (circ (step_st cf s e)) = Open /\
+  last_change (circ (step_st cf s e)) = last_change (circ s) /\
+  inflight (step_st cf s e) <= inflight s.
+Proof.
+  intros [Hop Hw] H1 H2. unfold step_st, step.
+  destruct e as [i|i|d|i o| | |]; cbn [fst]; try congruence.
+  - unfold poll. cbn. destruct (cs s i) as [|start tr| |] eqn:Ecs.
+    + destruct (try_acquire_spec (now s) cf (circ s)) as (_ & Hrej & _). cbn zeta in Hrej.
+      destruct (Hrej Hop Hw) as [Hok Hc].
+      destruct (try_acquire (now s) cf (circ s)) as [c' ok]. cbn in Hok, Hc. subst. cbn.
+      repeat split; auto; lia.
+    + unfold poll_running. cbn. destruct (gate s i) as [[f|f| |]|]; cbn [fst].
+      * rewrite circ_gsync. cbn. destruct (record_open (now s) cf f (now s - start) (circ s) Hop).
+        repeat split; auto. unfold gsync. destruct (_ =? _); cbn; lia.
+      * rewrite circ_gsync. cbn. destruct (record_open (now s) cf f (now s - start) (circ s) Hop).
+        repeat split; auto. unfold gsync. destruct (_ =? _); cbn; lia.
+      * cbn. destruct tr as [p|]; cbn; [destruct (p =? phase (circ s)) eqn:E; cbn|];
+          repeat split; auto; try lia; rewrite ?E; cbn; lia.
+      * cbn. repeat split; auto; lia.
+      * cbn. repeat split; auto; lia.
+    + cbn. repeat split; auto; lia.
+    + cbn. repeat split; auto; lia.
+  - unfold drop. cbn. destruct (cs s i) as [|start tr| |]; cbn; try (repeat split; auto; lia).
+    destruct tr as [p|]; cbn; [destruct (p =? phase (circ s)) eqn:E; cbn|]; repeat split; auto; try lia;
+      try (rewrite E; cbn; lia).
+  - cbn. repeat split; auto; lia.
+  - unfold complete. destruct (gate s i); cbn; repeat split; auto; lia.
+  - rewrite circ_gsync. cbn. unfold force_open. rewrite transition_same by exact Hop. repeat split; auto.
+    unfold gsync. destruct (_ =? _); cbn; lia.
+Qed.
+
+Lemma now_poll_running cf s i start tr b : now (fst (poll_running cf s i start tr b)) = now s.
+Proof.
+  unfold poll_running. destruct (gate s i) as [[f|f| |]|]; cbn [fst]; rewrite ?now_gsync; cbn; try reflexivity.
+  destruct tr as [p|]; cbn; [destruct (p =? phase (circ s)); cbn|]; reflexivity.
+Qed.
+
+Lemma now_step cf s e :
+  now (step_st cf s e) = match e with Advance d => now s + Z.max 0 d | _ => now s end.
+Proof.
+  unfold step_st, step. destruct e as [i|i|d|i o| | |]; cbn [fst]; try (rewrite now_gsync; reflexivity).
+  - unfold poll. cbn. destruct (cs s i) as [|start tr| |]; try reflexivity.
+    + destruct (try_acquire (now s) cf (circ s)) as [c' ok]. destruct ok; cbn [fst]; [|reflexivity].
+      rewrite now_poll_running. destruct (state c'); cbn; rewrite now_gsync; reflexivity.
+    + rewrite now_poll_running. reflexivity.
+  - unfold drop. cbn. destruct (cs s i) as [|start tr| |]; cbn; try reflexivity.
+    destruct tr as [p|]; cbn; [destruct (p =? phase (circ s)); cbn|]; reflexivity.
+  - reflexivity.
+  - unfold complete. destruct (gate s i); reflexivity.
+Qed.
+
+Lemma now_mono cf s e : now s <= now (step_st cf s e).
+Proof. rewrite now_step. destruct e; lia. Qed.
+
+Lemma now_mono_run cf evs : forall s, now s <= now (fold_left (step_st cf) evs s).
+Proof.
+  induction evs as [|e t IH]; intros s; cbn [fold_left]; [lia|].
+  etransitivity; [apply (now_mono cf s e)|apply IH].
+Qed.
+
+(* the [started] flags produced along a run (what run_script prints as the second field) *)
+Fixpoint starts_in (cf : cfg) (s : st) (evs : list ev) : list bool :=
+  match evs with
+  | [] => []
+  | e :: t => started (snd (step cf s e)) :: starts_in cf (step_st cf s e) t
+  end.
+
+(* the property's own sentence: from a state in which the breaker is open (since last_change)
+   until wait_duration_in_open has elapsed, unless an operator closes or resets it, no event
+   starts an inner call, the breaker stays open with the same opening instant, and the number of
+   inner calls in flight never grows *)
+Lemma interval cf evs : forall s,
+  state (circ s) = Open ->
+  Forall (fun e => e <> ForceClosed /\ e <> Reset) evs ->
+  now (fold_left (step_st cf) evs s) - last_change (circ s) < wait_open cf ->
+  Forall (fun b => b = false) (starts_in cf s evs) /\
+  Forall (fun s' => state (circ s') = Open /\ last_change (circ s') = last_change (circ s) /\
+                    inflight s' <= inflight s)
+         (states (step_st cf) s evs).
+Proof.
+  induction evs as [|e t IH]; intros s Hop Hall Hend; cbn [starts_in fold_left states].
+  - split; [constructor|]. constructor; [|constructor]. repeat split; auto; lia.
+  - inversion Hall as [|? ? [Hfc Hr] Ht]; subst.
+    cbn [fold_left] in Hend.
+    pose proof (now_mono_run cf t (step_st cf s e)) as Hm1. pose proof (now_mono cf s e) as Hm2.
+    assert (Hsh : shielded cf s) by (split; [exact Hop|lia]).
+    destruct (shield_persists cf s e Hsh Hfc Hr) as (P1 & P2 & P3).
+    destruct (IH (step_st cf s e) P1 Ht) as [I1 I2]; [rewrite P2; exact Hend|].
+    split; [constructor; [apply no_start_while_open; exact Hsh|exact I1]|].
+    constructor; [repeat split; auto; lia|].
+    eapply Forall_impl; [|exact I2]. cbn. intros s' (Q1 & Q2 & Q3). repeat split; auto; lia.
+Qed.
+
+(* non-vacuity of the interval form: opened by failure rate at t=0, then 9 ms of new callers,
+   late completion of an earlier call, cancellations, force_open; all rejected, still open *)
+Example ex_interval :
+  let cf := mkCfg false 2 100 2 1 2 false 50 1 2 10 2 false in
+  let evs0 := [Poll 7%nat; Poll 0%nat; Complete 0%nat (OErr true); Poll 0%nat;
+               Poll 1%nat; Complete 1%nat (OErr true); Poll 1%nat] in
+  let evs := [Poll 2%nat; Advance 4; Complete 7%nat (OOk false); Poll 7%nat; Poll 3%nat; Drop 4%nat;
+              ForceOpen; Advance 5; Poll 5%nat] in
+  let s := fold_left (step_st cf) evs0 init in
+  state (circ s) = Open /\ last_change (circ s) = 0 /\ inflight s = 1 /\
+  now (fold_left (step_st cf) evs s) = 9 /\
+  state (circ (fold_left (step_st cf) evs s)) = Open /\
+  (* one more millisecond and the next caller is admitted as a trial *)
+  started (snd (step cf (fold_left (step_st cf) (evs ++ [Advance 1]) s) (Poll 6%nat))) = true.
+Proof. vm_compute. repeat split. Qed.
+
+(* the lock-free mirror equals the state in every reachable state, for every configuration
+   (also permitted_calls_in_half_open = 0, which the builder accepts) *)
+Lemma synced_poll_running cf s i start tr b :
+  synced (circ s) -> synced (circ (fst (poll_running cf s i start tr b))).
+Proof.
+  intros H. unfold poll_running. destruct (gate s i) as [[f|f| |]|]; cbn [fst].
+  - rewrite circ_gsync. cbn. eapply trans_or_same_synced; [exact H|apply record_spec].
+  - rewrite circ_gsync. cbn. eapply trans_or_same_synced; [exact H|apply record_spec].
+  - cbn. destruct tr as [p|]; cbn; [destruct (p =? phase (circ s))|]; exact H.
+  - exact H.
+  - exact H.
+Qed.
+
+Lemma synced_step cf s e : synced (circ s) -> synced (circ (step_st cf s e)).
+Proof.
+  intros H. unfold step_st, step. destruct e as [i|i|d|i o| | |]; cbn [fst].
+  - unfold poll. cbn. destruct (cs s i) as [|start tr| |]; try exact H.
+    + pose proof (try_acquire_spec (now s) cf (circ s)) as (Hsy & _). cbn zeta in Hsy.
+      destruct (try_acquire (now s) cf (circ s)) as [c' ok]. cbn [fst] in Hsy. specialize (Hsy H).
+      destruct ok; cbn [fst]; [|exact Hsy].
+      apply synced_poll_running. destruct (state c'); cbn; rewrite circ_gsync; exact Hsy.
+    + apply synced_poll_running. exact H.
+  - unfold drop. cbn. destruct (cs s i) as [|start tr| |]; cbn; try exact H.
+    destruct tr as [p|]; cbn; [destruct (p =? phase (circ s))|]; exact H.
+  - exact H.
+  - unfold complete. destruct (gate s i); exact H.
+  - rewrite circ_gsync. cbn. eapply trans_or_same_synced; [exact H|apply transition_to_spec].
+  - rewrite circ_gsync. cbn. eapply trans_or_same_synced; [exact H|apply transition_to_spec].
+  - rewrite circ_gsync. cbn. eapply trans_or_same_synced; [exact H|].
+    eapply trans_or_same_post; [apply transition_to_spec|apply clear_window_ctl].
+Qed.
+
+Lemma views_agree_all cf evs :
+  Forall (fun s => state_atomic (circ s) = state (circ s) /\
+                   fst (fst (fst (fst (metrics cf (circ s))))) = state (circ s))
+         (states (step_st cf) init evs).
+Proof.
+  eapply Forall_impl; [|apply (reach_inv (step_st cf) (fun s => synced (circ s)) init);
+                        [reflexivity|intros s e; apply synced_step]].
+  intros s Hs. split; [exact Hs|].
+  unfold metrics. destruct (time_based cf); [unfold time_based_stats|]; reflexivity.
+Qed.
+
+(* ================= C09: statements over observable starts ================= *)
+Lemma gsync_same old s : phase (circ s) = old -> gsync old s = s.
+Proof. intros H. unfold gsync. rewrite H, Z.eqb_refl. reflexivity. Qed.
+
+Lemma gsync_diff old s :
+  phase (circ s) <> old -> gsync old s = s <| gstarts := 0 |> <| ghand := 0 |>.
+Proof. intros H. unfold gsync. apply Z.eqb_neq in H. rewrite H. reflexivity. Qed.
+
+Lemma record_ho_same now cf f d c :
+  state c = HalfOpen -> state (record now cf f d c) = HalfOpen -> same_ctl c (record now cf f d c).
+Proof.
+  intros H H'. destruct (record_spec now cf f d c) as [A|(B1&_)]; [exact A|congruence].
+Qed.
+
+Lemma evaluate_state now cf c :
+  state (evaluate_window now cf c) = state c \/ state (evaluate_window now cf c) = Open.
+Proof.
+  unfold evaluate_window.
+  set (c1 := if time_based cf then cleanup_old_records now cf c else c).
+  assert (H1 : state c1 = state c) by (subst c1; destruct (time_based cf); reflexivity).
+  destruct (if time_based cf then time_based_stats c1 else (tc c1, fc c1, sc c1, slowc c1)) as [[[a b] d] e].
+  destruct (_ <? minc cf); [left; exact H1|].
+  destruct (negb (time_based cf) && _); [left; exact H1|].
+  destruct (_ || _); [|left; exact H1]. right. apply transition_state.
+Qed.
+
+(* recording an outcome never makes the breaker half-open *)
+Lemma record_not_ho now cf f d c : state c <> HalfOpen -> state (record now cf f d c) <> HalfOpen.
+Proof.
+  intros H. destruct (record_same_ctl_pre now cf f d c) as (c1 & (A1&_) & ->).
+  destruct (state c1) eqn:E; try congruence.
+  - destruct (evaluate_state now cf c1) as [X|X]; rewrite X; congruence.
+  - destruct (evaluate_state now cf c1) as [X|X]; rewrite X; congruence.
+Qed.
+
+Lemma poll_running_not_ho cf s i start tr b :
+  state (circ s) <> HalfOpen -> state (circ (fst (poll_running cf s i start tr b))) <> HalfOpen.
+Proof.
+  intros H. unfold poll_running. destruct (gate s i) as [[f|f| |]|]; cbn [fst].
+  - rewrite circ_gsync. cbn. apply record_not_ho. exact H.
+  - rewrite circ_gsync. cbn. apply record_not_ho. exact H.
+  - cbn. destruct tr as [p|]; cbn; [destruct (p =? phase (circ s)); cbn|]; exact H.
+  - exact H.
+  - exact H.
+Qed.
+
+Lemma gstarts_poll_running cf s i start tr b :
+  state (circ s) = HalfOpen -> state (circ (fst (poll_running cf s i start tr b))) = HalfOpen ->
+  gstarts (fst (poll_running cf s i start tr b)) = gstarts s /\
+  started (snd (poll_running cf s i start tr b)) = b.
+Proof.
+  intros Hho. unfold poll_running. destruct (gate s i) as [[f|f| |]|]; cbn [fst snd started]; intros H'.
+  - rewrite circ_gsync in H'. cbn in H'.
+    destruct (record_ho_same _ _ _ _ _ Hho H') as (_&_&_&HP&_).
+    rewrite gsync_same by (cbn; exact HP). cbn. auto.
+  - rewrite circ_gsync in H'. cbn in H'.
+    destruct (record_ho_same _ _ _ _ _ Hho H') as (_&_&_&HP&_).
+    rewrite gsync_same by (cbn; exact HP). cbn. auto.
+  - split; [|reflexivity]. destruct tr as [p|]; cbn; [destruct (p =? phase (circ s)); cbn|]; reflexivity.
+  - auto.
+  - auto.
+Qed.
+
+(* within a half-open phase the ghost start counter counts exactly the observable starts,
+   whatever the gate of the polled caller holds *)
+Lemma gstarts_step cf s e :
+  state (circ s) = HalfOpen -> state (circ (step_st cf s e)) = HalfOpen ->
+  gstarts (step_st cf s e) = gstarts s + b2z (started (snd (step cf s e))).
+Proof.
+  intros Hho. unfold step_st, step. destruct e as [i|i|d|i o| | |]; cbn [fst snd].
+  - unfold poll. cbn. destruct (cs s i) as [|start tr| |] eqn:Ecs.
+    + unfold try_acquire. rewrite Hho.
+      destruct (admitted (circ s) <? permitted cf); cbn [fst snd].
+      * cbn. rewrite Hho. cbn. rewrite !gsync_same by reflexivity. cbn.
+        intros H'.
+        match goal with |- context [poll_running cf ?s2 i ?st ?tr true] =>
+          destruct (gstarts_poll_running cf s2 i st tr true) as [G1 G2]; [cbn; exact Hho|exact H'|] end.
+        rewrite G1, G2. cbn. reflexivity.
+      * cbn. intros _. lia.
+    + intros H'.
+      match goal with |- context [poll_running cf ?s2 i ?st ?tr false] =>
+          destruct (gstarts_poll_running cf s2 i st tr false) as [G1 G2]; [cbn; exact Hho|exact H'|] end.
+      rewrite G1, G2. cbn. lia.
+    + cbn. lia.
+    + cbn. lia.
+  - unfold drop. cbn. destruct (cs s i) as [|start tr| |]; cbn; intros _; try lia.
+    destruct tr as [p|]; cbn; [destruct (p =? phase (circ s)); cbn|]; lia.
+  - cbn. lia.
+  - unfold complete. destruct (gate s i); cbn; lia.
+  - rewrite circ_gsync. cbn. unfold force_open, transition_to. rewrite Hho. cbn. discriminate.
+  - rewrite circ_gsync. cbn. unfold force_closed, transition_to. rewrite Hho. cbn. discriminate.
+  - rewrite circ_gsync. cbn. unfold reset, transition_to. rewrite Hho. cbn. discriminate.
+Qed.
+
+Lemma ghand_poll_running_nonneg cf s i start tr b :
+  0 <= ghand s -> 0 <= ghand (fst (poll_running cf s i start tr b)).
+Proof.
+  intros H0. unfold poll_running. destruct (gate s i) as [[f|f| |]|]; cbn [fst].
+  - match goal with |- context [gsync ?o ?x] => pose proof (ghand_gsync o x) as Hgg end. cbn in Hgg. specialize (Hgg H0). lia.
+  - match goal with |- context [gsync ?o ?x] => pose proof (ghand_gsync o x) as Hgg end. cbn in Hgg. specialize (Hgg H0). lia.
+  - cbn. destruct tr as [p|]; cbn; [destruct (_ =? _); cbn|]; lia.
+  - cbn. lia.
+  - lia.
+Qed.
+
+Lemma ghand_poll_running_le1 cf s i start tr b :
+  0 <= ghand s -> ghand (fst (poll_running cf s i start tr b)) <= ghand s + 1.
+Proof.
+  intros H0. unfold poll_running. destruct (gate s i) as [[f|f| |]|]; cbn [fst].
+  - match goal with |- context [gsync ?o ?x] => pose proof (ghand_gsync o x) as Hgg end. cbn in Hgg. specialize (Hgg H0). lia.
+  - match goal with |- context [gsync ?o ?x] => pose proof (ghand_gsync o x) as Hgg end. cbn in Hgg. specialize (Hgg H0). lia.
+  - cbn. destruct tr as [p|]; cbn; [destruct (_ =? _); cbn|]; lia.
+  - cbn. lia.
+  - lia.
+Qed.
+
+(* the breaker becomes half-open in exactly one way: a poll that starts the first trial call *)
+Lemma gstarts_enter cf s e :
+  state (circ s) <> HalfOpen -> state (circ (step_st cf s e)) = HalfOpen ->
+  gstarts (step_st cf s e) = 1 /\ started (snd (step cf s e)) = true /\
+  (exists i, e = Poll i) /\ state (circ s) = Open /\
+  (r (snd (step cf s e)) <> 5 -> ghand (step_st cf s e) = 0) /\
+  ghand (step_st cf s e) <= 1.
+Proof.
+  intros Hn. unfold step_st, step. destruct e as [i|i|d|i o| | |]; cbn [fst snd].
+  - unfold poll. cbn. destruct (cs s i) as [|start tr| |] eqn:Ecs.
+    + unfold try_acquire. destruct (state (circ s)) eqn:Es; [| |congruence].
+      * cbn. rewrite Es. rewrite !gsync_same by reflexivity. intros H'. exfalso.
+        revert H'. apply poll_running_not_ho. cbn. congruence.
+      * destruct (wait_open cf <=? now s - last_change (circ s)); cbn [fst snd].
+        -- unfold transition_to. rewrite Es. cbn.
+           rewrite !gsync_diff by (cbn; lia). cbn.
+           intros H'.
+           match goal with |- context [poll_running cf ?s2 i ?st ?tr true] =>
+             destruct (gstarts_poll_running cf s2 i st tr true) as [G1 G2]; [reflexivity|exact H'|];
+             pose proof (ghand_poll_running cf s2 i st tr true) as G3;
+             pose proof (ghand_poll_running_nonneg cf s2 i st tr true) as G4;
+             pose proof (ghand_poll_running_le1 cf s2 i st tr true) as G5 end.
+           cbn in G3, G4, G5. specialize (G4 ltac:(lia)). specialize (G5 ltac:(lia)).
+           rewrite G1, G2. cbn. repeat split; [eexists; reflexivity| |lia]. intros Hr.
+           match goal with |- ?x = 0 => destruct (Z_lt_le_dec 0 x) as [L|L]; [|lia] end.
+           exfalso. apply Hr. apply G3; lia.
+        -- cbn. rewrite Es. discriminate.
+    + intros H'. exfalso. revert H'. apply poll_running_not_ho. exact Hn.
+    + cbn. intros; congruence.
+    + cbn. intros; congruence.
+  - unfold drop. cbn. destruct (cs s i) as [|start tr| |]; cbn; try (intros; congruence).
+    destruct tr as [p|]; cbn; [destruct (p =? phase (circ s)); cbn|]; intros; congruence.
+  - cbn. intros; congruence.
+  - unfold complete. destruct (gate s i); cbn; intros; congruence.
+  - rewrite circ_gsync. cbn. unfold force_open. rewrite transition_state. discriminate.
+  - rewrite circ_gsync. cbn. unfold force_closed. rewrite transition_state. discriminate.
+  - rewrite circ_gsync. cbn. unfold reset. cbn. rewrite transition_state. discriminate.
+Qed.
+
+(* number of inner calls started along a run (sum of the trace's [started] fields) *)
+Fixpoint nstarts (cf : cfg) (s : st) (evs : list ev) : Z :=
+  match evs with
+  | [] => 0
+  | e :: t => b2z (started (snd (step cf s e))) + nstarts cf (step_st cf s e) t
+  end.
+
+(* number of events of a run that end a call without an outcome: a cancellation (Drop) or a
+   poll that panics (r = 5) *)
+Definition is_cancel (cf : cfg) (s : st) (e : ev) : bool :=
+  match e with
+  | Drop _ => true
+  | Poll _ => r (snd (step cf s e)) =? 5
+  | _ => false
+  end.
+Fixpoint ncancel (cf : cfg) (s : st) (evs : list ev) : Z :=
+  match evs with
+  | [] => 0
+  | e :: t => b2z (is_cancel cf s e) + ncancel cf (step_st cf s e) t
+  end.
+
+(* the breaker is half-open after every step of the run *)
+Fixpoint stays_ho (cf : cfg) (s : st) (evs : list ev) : Prop :=
+  match evs with
+  | [] => True
+  | e :: t => state (circ (step_st cf s e)) = HalfOpen /\ stays_ho cf (step_st cf s e) t
+  end.
+
+Lemma ghand_step_le cf s e :
+  0 <= ghand s -> ghand (step_st cf s e) <= ghand s + b2z (is_cancel cf s e).
+Proof.
+  intros H0. destruct (Z_lt_le_dec (ghand s) (ghand (step_st cf s e))) as [L|L].
+  - assert (Hone : ghand (step_st cf s e) <= ghand s + 1).
+    { clear L. unfold step_st, step. destruct e as [i|i|d|i o| | |]; cbn [fst].
+      - unfold poll. cbn. destruct (cs s i) as [|start tr| |]; cbn; try lia.
+        + destruct (try_acquire (now s) cf (circ s)) as [c' ok]. destruct ok; cbn [fst]; [|cbn; lia].
+          match goal with |- context [poll_running cf ?s2 i ?st ?tr true] =>
+            pose proof (ghand_poll_running_le1 cf s2 i st tr true) as Hp;
+            assert (Hle : 0 <= ghand s2 <= ghand s)
+          end.
+          { destruct (state c'); cbn;
+              match goal with |- context [gsync ?o ?x] => pose proof (ghand_gsync o x) as Hg end;
+              cbn in Hg; specialize (Hg H0); lia. }
+          specialize (Hp ltac:(lia)). lia.
+        + match goal with |- context [poll_running cf ?s2 i ?st ?tr false] =>
+            pose proof (ghand_poll_running_le1 cf s2 i st tr false) as Hp end.
+          cbn in Hp. specialize (Hp H0). lia.
+      - unfold drop. cbn. destruct (cs s i) as [|start tr| |]; cbn; try lia.
+        destruct tr as [p|]; cbn; [destruct (_ =? _); cbn|]; lia.
+      - cbn. lia.
+      - unfold complete. destruct (gate s i); cbn; lia.
+      - match goal with |- context [gsync ?o ?x] => pose proof (ghand_gsync o x H0) as Hg end. cbn in Hg. lia.
+      - match goal with |- context [gsync ?o ?x] => pose proof (ghand_gsync o x H0) as Hg end. cbn in Hg. lia.
+      - match goal with |- context [gsync ?o ?x] => pose proof (ghand_gsync o x H0) as Hg end. cbn in Hg. lia. }
+    destruct (handback_only_on_cancel cf s e H0 L) as [[i ->]|[i [-> Hr]]]; cbn [is_cancel].
+    + cbn [b2z]. lia.
+    + rewrite Hr, Z.eqb_refl. cbn [b2z]. lia.
+  - destruct (is_cancel cf s e); cbn [b2z]; lia.
+Qed.
+
+Lemma phase_run cf : 1 <= permitted cf -> forall evs s,
+  Inv cf s -> state (circ s) = HalfOpen -> stays_ho cf s evs ->
+  let s' := fold_left (step_st cf) evs s in
+  gstarts s' = gstarts s + nstarts cf s evs /\ ghand s' <= ghand s + ncancel cf s evs /\
+  Inv cf s' /\ state (circ s') = HalfOpen.
+Proof.
+  intros Hp. induction evs as [|e t IH]; intros s Hinv Hho Hrun; cbv zeta; cbn [fold_left nstarts ncancel].
+  - split; [lia|split; [lia|split; assumption]].
+  - destruct Hrun as (H1 & H4).
+    pose proof (step_inv cf s e Hp Hinv) as Hinv'.
+    destruct (IH _ Hinv' H1 H4) as (I1 & I2 & I3 & I4).
+    pose proof (gstarts_step cf s e Hho H1) as G.
+    pose proof (ghand_step_le cf s e (i_hand0 _ _ Hinv)) as Hh.
+    split; [lia|split; [lia|split; assumption]].
+Qed.
+
+(* C09 over what the trace shows only (started flags, result codes, state after each event):
+   take any reachable state in which the breaker is not half-open and any continuation after
+   every event of which it is half-open (one half-open phase, from the event that enters it):
+   the inner calls started exceed permitted_calls_in_half_open by at most the number of events
+   that ended a call without an outcome (cancellations and panicking polls) *)
+Lemma phase_trace cf evs0 evs :
+  1 <= permitted cf ->
+  let s := fold_left (step_st cf) evs0 init in
+  state (circ s) <> HalfOpen -> stays_ho cf s evs ->
+  nstarts cf s evs <= permitted cf + ncancel cf s evs.
+Proof.
+  intros Hp s Hn Hrun.
+  assert (Hinv : Inv cf s).
+  { pose proof (reach_Inv cf evs0 Hp) as HF. rewrite Forall_forall in HF. apply HF. apply states_last. }
+  destruct evs as [|e t]; cbn [nstarts ncancel]; [lia|].
+  destruct Hrun as (H1 & H4).
+  destruct (gstarts_enter cf s e Hn H1) as (E1 & E2 & [i ->] & _ & E3 & E4).
+  pose proof (step_inv cf s (Poll i) Hp Hinv) as Hinv'.
+  destruct (phase_run cf Hp t _ Hinv' H1 H4) as (I1 & I2 & I3 & I4).
+  destruct I3 as [_ _ Hh0 Ha Hg _]. specialize (Ha I4).
+  rewrite E2. cbn [b2z is_cancel].
+  destruct (r (snd (step cf s (Poll i))) =? 5) eqn:Ec; cbn [b2z].
+  - lia.
+  - apply Z.eqb_neq in Ec. specialize (E3 Ec). lia.
+Qed.
+
+(* under the property's own quantifier (trial calls run to an outcome: nothing is cancelled, no
+   poll panics) the bound is on ALL inner calls started in the phase *)
+Lemma phase_trace_no_cancel cf evs0 evs :
+  1 <= permitted cf ->
+  let s := fold_left (step_st cf) evs0 init in
+  state (circ s) <> HalfOpen -> stays_ho cf s evs -> ncancel cf s evs = 0 ->
+  nstarts cf s evs <= permitted cf.
+Proof. intros Hp s Hn Hrun Hc. pose proof (phase_trace cf evs0 evs Hp Hn Hrun) as H. fold s in H. lia. Qed.
+
+Example ex_phase :
+  let cf := mkCfg false 2 100 2 1 2 false 50 1 2 10 2 false in
+  let evs0 := [Poll 0%nat; Complete 0%nat (OErr true); Poll 0%nat;
+              Poll 1%nat; Complete 1%nat (OErr true); Poll 1%nat; Advance 10] in
+  let evs := [Poll 2%nat; Poll 3%nat; Poll 4%nat; Poll 5%nat; Poll 6%nat] in
+  let s := fold_left (step_st cf) evs0 init in
+  state (circ s) = Open /\ nstarts cf s evs = 2 /\ ncancel cf s evs = 0 /\
+  state (circ (fold_left (step_st cf) evs s)) = HalfOpen.
+Proof. vm_compute. repeat split. Qed.
+
+(* with cancellations the excess is real: permitted = 1, three trial calls reach the inner
+   service in ONE half-open phase because two of them end without an outcome (one panics, one is
+   dropped) and hand their slot back *)
+Example ex_phase_cancel :
+  let cf := mkCfg false 2 100 2 1 2 false 50 1 2 10 1 false in
+  let evs0 := [Poll 0%nat; Complete 0%nat (OErr true); Poll 0%nat;
+              Poll 1%nat; Complete 1%nat (OErr true); Poll 1%nat; Advance 10] in
+  let evs := [Poll 2%nat; Poll 3%nat; Complete 2%nat OPanic; Poll 2%nat; Poll 4%nat; Drop 4%nat; Poll 5%nat; Poll 6%nat] in
+  let s := fold_left (step_st cf) evs0 init in
+  stays_ho cf s evs /\ nstarts cf s evs = 3 /\ ncancel cf s evs = 2 /\ inflight (fold_left (step_st cf) evs s) = 1.
+Proof. vm_compute. repeat split. Qed.
+
+(* ================= C09: the trace monitor, in Gallina =================
+   gen/c09.py's monitor transliterated: it reads, per event, the event itself, the result code
+   and started flag of the poll, and the state observed after the event — i.e. fields of the
+   trace that run_script prints — and nothing of the model's internals.
+   Per half-open phase: S = trial calls started, C = trial calls that ended without an outcome
+   (their caller was dropped while its trial was in flight, or its poll panicked),
+   M = callers whose trial is in flight. *)
+Definition mem (a : nat) (l : list nat) : bool := existsb (Nat.eqb a) l.
+Definition rem (a : nat) (l : list nat) : list nat := filter (fun x => negb (Nat.eqb a x)) l.
+
+Arguments mem : simpl never.
+Arguments rem : simpl never.
+
+Definition phase_acct := (Z * Z * list nat)%type.
+
+Record c09m := mkM { m_prev : cstate; m_cur : option phase_acct; m_seen : list nat }.
+
+Definition c09_init : c09m := mkM Closed None [].
+
+(* a trial that delivered its result (r = 1, 2) or panicked (r = 5) leaves M; a panic counts in C *)
+Definition acct_result (cur : option phase_acct) (a : nat) (rc : Z) : option phase_acct :=
+  match cur with
+  | Some (ns, nc, ms) =>
+    if ((rc =? 1) || (rc =? 2) || (rc =? 5)) && mem a ms
+    then Some (ns, if rc =? 5 then nc + 1 else nc, rem a ms)
+    else cur
+  | None => None
+  end.
+
+Definition acct_start (prev : cstate) (cur : option phase_acct) (a : nat) : option phase_acct :=
+  match prev, cur with
+  | HalfOpen, Some (ns, nc, ms) => Some (ns + 1, nc, a :: ms)
+  | Open, _ => Some (1, 0, [a])
+  | _, c => c
+  end.
+
+Definition is_full (perm : Z) (prev : cstate) (cur : option phase_acct) : bool :=
+  match prev, cur with
+  | HalfOpen, Some (ns, nc, _) => perm <=? ns - nc
+  | _, _ => false
+  end.
+
+(* the accounting of one event; None = alarm (R) *)
+Definition c09_acct (perm : Z) (m : c09m) (e : ev) (o : obs) : option (option phase_acct * list nat) :=
+  match e with
+  | Poll a =>
+    let fresh := negb (mem a (m_seen m)) in
+    (* (R) a caller beyond the permitted number is rejected at once and starts nothing *)
+    if fresh && is_full perm (m_prev m) (m_cur m) &&
+       (started o || negb ((r o =? 3) || (r o =? 4)))
+    then None
+    else
+      let cur1 := if started o then acct_start (m_prev m) (m_cur m) a else m_cur m in
+      Some (acct_result cur1 a (r o), a :: m_seen m)
+  | Drop a =>
+    (* a dropped trial leaves M and counts in C *)
+    Some (acct_result (m_cur m) a 5, a :: m_seen m)
+  | _ =>
+    Some (if started o
+          then match m_prev m, m_cur m with
+               | HalfOpen, Some (ns, nc, ms) => Some (ns + 1, nc, ms)
+               | _, c => c
+               end
+          else m_cur m, m_seen m)
+  end.
+
+(* end of the event: the phase ends when the observed state is not half-open; None = alarm (B) *)
+Definition c09_end (perm : Z) (cur : option phase_acct) (seen : list nat) (st' : cstate) : option c09m :=
+  match st' with
+  | HalfOpen =>
+    let '(ns, nc, ms) := match cur with Some c => c | None => (0, 0, []) end in
+    (* (B) trial calls started minus those that ended without an outcome <= permitted *)
+    if perm <? ns - nc then None else Some (mkM HalfOpen (Some (ns, nc, ms)) seen)
+  | _ => Some (mkM st' None seen)
+  end.
+
+Definition c09_step (perm : Z) (m : c09m) (e : ev) (o : obs) (st' : cstate) : option c09m :=
+  match c09_acct perm m e o with
+  | None => None
+  | Some (cur, seen) => c09_end perm cur seen st'
+  end.
+
+(* the monitor run along an execution of the model: it sees (event, output, state after) *)
+Fixpoint c09_run (cf : cfg) (m : c09m) (s : st) (evs : list ev) : bool :=
+  match evs with
+  | [] => true
+  | e :: t =>
+    match c09_step (permitted cf) m e (snd (step cf s e)) (state (circ (step_st cf s e))) with
+    | None => false
+    | Some m' => c09_run cf m' (step_st cf s e) t
+    end
+  end.
+
+(* ---------- list helpers ---------- *)
+Lemma mem_cons_same a l : mem a (a :: l) = true.
+Proof. unfold mem. cbn. rewrite Nat.eqb_refl. reflexivity. Qed.
+Lemma mem_cons a b l : mem a l = true -> mem a (b :: l) = true.
+Proof. unfold mem. cbn. intros ->. apply orb_true_r. Qed.
+Lemma mem_cons_inv a b l : mem a (b :: l) = false -> a <> b /\ mem a l = false.
+Proof.
+  unfold mem. cbn. intros H. apply orb_false_iff in H. destruct H as [H1 H2].
+  split; [apply Nat.eqb_neq; exact H1|exact H2].
+Qed.
+Lemma mem_rem a b l : a <> b -> mem a l = true -> mem a (rem b l) = true.
+Proof.
+  intros Hn. unfold mem, rem. rewrite !existsb_exists. intros [x [Hin Hx]].
+  exists x. split; [|exact Hx]. apply filter_In. split; [exact Hin|].
+  apply Nat.eqb_eq in Hx. subst x. apply negb_true_iff. apply Nat.eqb_neq. congruence.
+Qed.
+
+(* ---------- what a step does to the callers ---------- *)
+Lemma cs_poll_running cf s i start tr b j :
+  cs (fst (poll_running cf s i start tr b)) j =
+    (if Nat.eqb j i then match gate s i with None => cs s i | Some _ => Done end else cs s j).
+Proof.
+  unfold poll_running. destruct (gate s i) as [[f|f| |]|]; cbn [fst]; unfold gsync;
+    try (destruct (_ =? _)); cbn; try (destruct tr as [p|]; cbn; try destruct (_ =? _); cbn);
+    unfold upd; destruct (Nat.eqb j i) eqn:E; try reflexivity;
+    apply Nat.eqb_eq in E; subst; reflexivity.
+Qed.
+
+Lemma cs_step_other cf s e j :
+  (forall i, e = Poll i \/ e = Drop i -> j <> i) -> cs (step_st cf s e) j = cs s j.
+Proof.
+  intros Hj. unfold step_st, step. destruct e as [i|i|d|i o| | |]; cbn [fst].
+  - assert (Hne : Nat.eqb j i = false) by (apply Nat.eqb_neq; apply Hj; auto).
+    unfold poll. cbn. destruct (cs s i) as [|start tr| |]; try reflexivity.
+    + destruct (try_acquire (now s) cf (circ s)) as [c' ok]. destruct ok; cbn [fst].
+      * rewrite cs_poll_running, Hne. destruct (state c'); cbn; unfold gsync;
+          destruct (_ =? _); cbn; unfold upd; rewrite Hne; reflexivity.
+      * cbn. unfold upd. rewrite Hne. reflexivity.
+    + rewrite cs_poll_running, Hne. reflexivity.
+  - assert (Hne : Nat.eqb j i = false) by (apply Nat.eqb_neq; apply Hj; auto).
+    unfold drop. cbn. destruct (cs s i) as [|start tr| |]; cbn; try reflexivity.
+    + unfold upd. rewrite Hne. reflexivity.
+    + destruct tr as [p|]; cbn; try (destruct (p =? _); cbn); unfold upd; rewrite Hne; reflexivity.
+  - reflexivity.
+  - unfold complete. destruct (gate s i); reflexivity.
+  - unfold gsync. destruct (_ =? _); reflexivity.
+  - unfold gsync. destruct (_ =? _); reflexivity.
+  - unfold gsync. destruct (_ =? _); reflexivity.
+Qed.
+
+(* a caller that has been polled or dropped is never [Created] again *)
+Lemma cs_step_not_created cf s e i :
+  (e = Poll i \/ e = Drop i) -> cs (step_st cf s e) i <> Created.
+Proof.
+  intros [->| ->]; unfold step_st, step; cbn [fst].
+  - unfold poll. cbn. destruct (cs s i) as [|start tr| |] eqn:Ecs; cbn; try (rewrite Ecs; discriminate).
+    + destruct (try_acquire (now s) cf (circ s)) as [c' ok]. destruct ok; cbn [fst].
+      * rewrite cs_poll_running, Nat.eqb_refl.
+        match goal with |- context [gate ?x i] => destruct (gate x i) end; [discriminate|].
+        destruct (state c'); cbn; unfold gsync; destruct (_ =? _); cbn; unfold upd;
+          rewrite Nat.eqb_refl; discriminate.
+      * cbn. unfold upd. rewrite Nat.eqb_refl. discriminate.
+    + rewrite cs_poll_running, Nat.eqb_refl. cbn. destruct (gate s i); [discriminate|]. rewrite Ecs. discriminate.
+  - unfold drop. cbn. destruct (cs s i) as [|start tr| |] eqn:Ecs; cbn; try (rewrite Ecs; discriminate).
+    + unfold upd. rewrite Nat.eqb_refl. discriminate.
+    + destruct tr as [p|]; cbn; try (destruct (p =? _); cbn); unfold upd; rewrite Nat.eqb_refl; discriminate.
+Qed.
+
+(* ---------- the poll of a fresh caller, decomposed ---------- *)
+Definition tr_of (c' : circuit) : option Z :=
+  match state c' with HalfOpen => Some (phase c') | _ => None end.
+
+Definition admit_state (s : st) (i : nat) (c' : circuit) : st :=
+  let s1 := s <| woken := upd (woken s) i false |> in
+  let sg := gsync (phase (circ s))
+              (s1 <| circ := c' |> <| cs := upd (cs s1) i (Running (now s1) (tr_of c')) |>
+                  <| inflight := inflight s1 + 1 |>) in
+  match tr_of c' with Some _ => sg <| gstarts := gstarts sg + 1 |> | None => sg end.
+
+Lemma poll_created cf s i :
+  cs s i = Created ->
+  poll cf s i =
+    (if snd (try_acquire (now s) cf (circ s))
+     then poll_running cf (admit_state s i (fst (try_acquire (now s) cf (circ s)))) i (now s)
+            (tr_of (fst (try_acquire (now s) cf (circ s)))) true
+     else ((s <| woken := upd (woken s) i false |>)
+             <| circ := fst (try_acquire (now s) cf (circ s)) |> <| cs := upd (cs s) i Done |>,
+           {| r := if has_fallback cf then 4 else 3; started := false |})).
+Proof.
+  intros Hc. unfold poll. cbn. rewrite Hc.
+  destruct (try_acquire (now s) cf (circ s)) as [c' ok]. cbn [fst snd]. destruct ok; reflexivity.
+Qed.
+
+Lemma admit_state_fields s i c' :
+  circ (admit_state s i c') = c' /\ now (admit_state s i c') = now s /\
+  cs (admit_state s i c') = upd (cs s) i (Running (now s) (tr_of c')) /\
+  gate (admit_state s i c') = gate s.
+Proof.
+  unfold admit_state. destruct (tr_of c'); cbn; rewrite ?circ_gsync, ?now_gsync; cbn;
+    unfold gsync; destruct (_ =? _); cbn; auto.
+Qed.
+
+(* ---------- phases only grow; no caller holds a guard of a future phase ---------- *)
+Definition phase_le (s : st) : Prop :=
+  forall j st0 p, cs s j = Running st0 (Some p) -> p <= phase (circ s).
+
+Lemma trans_or_same_phase now c c' : trans_or_same now c c' -> phase c <= phase c' <= phase c + 1.
+Proof. intros [(_&_&_&A&_)|(_&_&_&A&_)]; lia. Qed.
+
+Lemma try_acquire_phase now cf c :
+  phase c <= phase (fst (try_acquire now cf c)) <= phase c + 1.
+Proof.
+  unfold try_acquire. destruct (state c) eqn:Es; cbn; try lia.
+  - destruct (wait_open cf <=? now - last_change c); cbn; [|lia].
+    unfold transition_to. rewrite Es. cbn. lia.
+  - destruct (admitted c <? permitted cf); cbn; lia.
+Qed.
+
+Lemma drop_trial_phase tr c : phase (drop_trial tr c) = phase c.
+Proof. destruct tr as [p|]; cbn; [destruct (_ =? _)|]; reflexivity. Qed.
+
+Lemma phase_poll_running cf s i start tr b :
+  phase (circ s) <= phase (circ (fst (poll_running cf s i start tr b))).
+Proof.
+  unfold poll_running. destruct (gate s i) as [[f|f| |]|]; cbn [fst].
+  - rewrite circ_gsync. cbn. apply (trans_or_same_phase (now s)). apply record_spec.
+  - rewrite circ_gsync. cbn. apply (trans_or_same_phase (now s)). apply record_spec.
+  - cbn. rewrite drop_trial_phase. lia.
+  - cbn. lia.
+  - lia.
+Qed.
+
+Lemma phase_le_poll_running cf s i start tr b :
+  phase_le s -> phase_le (fst (poll_running cf s i start tr b)).
+Proof.
+  intros H j st0 p. rewrite cs_poll_running.
+  pose proof (phase_poll_running cf s i start tr b) as Hm.
+  destruct (Nat.eqb j i) eqn:E.
+  - apply Nat.eqb_eq in E. subst j. destruct (gate s i); [discriminate|].
+    intros Hc. specialize (H _ _ _ Hc). lia.
+  - intros Hc. specialize (H _ _ _ Hc). lia.
+Qed.
+
+Lemma phase_le_step cf s e : phase_le s -> phase_le (step_st cf s e).
+Proof.
+  intros H. unfold step_st, step. destruct e as [i|i|d|i o| | |]; cbn [fst].
+  - destruct (cs s i) as [|start tr| |] eqn:Ecs.
+    + rewrite (poll_created cf s i Ecs).
+      pose proof (try_acquire_phase (now s) cf (circ s)) as Hm.
+      destruct (try_acquire (now s) cf (circ s)) as [c' ok]. cbn [fst snd] in *. destruct ok; cbn [fst].
+      * apply phase_le_poll_running.
+        destruct (admit_state_fields s i c') as (F1 & F2 & F3 & F4).
+        intros j st0 p. rewrite F1, F3. unfold upd. destruct (Nat.eqb j i).
+        -- unfold tr_of. destruct (state c'); intros Hc; inversion Hc; lia.
+        -- intros Hc. specialize (H _ _ _ Hc). lia.
+      * intros j st0 p. cbn. unfold upd. destruct (Nat.eqb j i); [discriminate|].
+        intros Hc. specialize (H _ _ _ Hc). lia.
+    + unfold poll. cbn. rewrite Ecs.
+      match goal with |- phase_le (fst (poll_running cf ?s1 i start tr false)) =>
+        apply (phase_le_poll_running cf s1 i start tr false) end.
+      exact H.
+    + unfold poll. cbn. rewrite Ecs. exact H.
+    + unfold poll. cbn. rewrite Ecs. exact H.
+  - unfold drop. cbn. destruct (cs s i) as [|start tr| |] eqn:Ecs; try exact H.
+    + intros j st0 p. cbn. unfold upd. destruct (Nat.eqb j i); [discriminate|]. apply H.
+    + intros j st0 p. cbn. rewrite drop_trial_phase.
+      replace (cs (ghandback tr (s <| woken := upd (woken s) i false |>))) with (cs s)
+        by (destruct tr as [q|]; cbn; [destruct (_ =? _)|]; reflexivity).
+      replace (circ (ghandback tr (s <| woken := upd (woken s) i false |>))) with (circ s)
+        by (destruct tr as [q|]; cbn; [destruct (_ =? _)|]; reflexivity).
+      unfold upd. destruct (Nat.eqb j i); [discriminate|]. apply H.
+  - exact H.
+  - unfold complete. destruct (gate s i); exact H.
+  - intros j st0 p. rewrite circ_gsync. replace (cs (gsync _ _)) with (cs s) by (unfold gsync; destruct (_ =? _); reflexivity).
+    cbn. intros Hc. specialize (H _ _ _ Hc).
+    pose proof (trans_or_same_phase (now s) (circ s) (force_open (now s) (circ s)) (proj1 (transition_to_spec _ _ _))). lia.
+  - intros j st0 p. rewrite circ_gsync. replace (cs (gsync _ _)) with (cs s) by (unfold gsync; destruct (_ =? _); reflexivity).
+    cbn. intros Hc. specialize (H _ _ _ Hc).
+    pose proof (trans_or_same_phase (now s) (circ s) (force_closed (now s) (circ s)) (proj1 (transition_to_spec _ _ _))). lia.
+  - intros j st0 p. rewrite circ_gsync. replace (cs (gsync _ _)) with (cs s) by (unfold gsync; destruct (_ =? _); reflexivity).
+    cbn. intros Hc. specialize (H _ _ _ Hc).
+    assert (Ht : trans_or_same (now s) (circ s) (reset (now s) (circ s)))
+      by (eapply trans_or_same_post; [apply transition_to_spec|apply clear_window_ctl]).
+    pose proof (trans_or_same_phase _ _ _ Ht) as Hm. unfold reset in Hm. cbn in Hm. lia.
+Qed.
+
+Lemma phase_le_init : phase_le init.
+Proof. intros j st0 p. cbn. discriminate. Qed.
+
+(* ---------- the monitor's state against the model's state ---------- *)
+Definition members_ok (s : st) (ms : list nat) : Prop :=
+  forall j st0, cs s j = Running st0 (Some (phase (circ s))) -> mem j ms = true.
+
+Definition cur_ok (cur : option phase_acct) (s : st) : Prop :=
+  state (circ s) = HalfOpen ->
+  exists ns nc ms, cur = Some (ns, nc, ms) /\ ns <= gstarts s /\ ghand s <= nc /\ members_ok s ms.
+
+Record Rel (cf : cfg) (m : c09m) (s : st) : Prop := {
+  r_prev : m_prev m = state (circ s);
+  r_seen : forall i, mem i (m_seen m) = false -> cs s i = Created;
+  r_cur : cur_ok (m_cur m) s;
+  r_inv : Inv cf s;
+  r_ple : phase_le s
+}.
+
+Lemma acct_result_other cur a rc :
+  (rc =? 1) || (rc =? 2) || (rc =? 5) = false -> acct_result cur a rc = cur.
+Proof. intros H. unfold acct_result. destruct cur as [[[ns nc] ms]|]; [|reflexivity]. rewrite H. reflexivity. Qed.
+
+(* caller i's call ends (result delivered, panic, or drop): it leaves M; if its slot was handed
+   back (ghand + 1) it was a trial of the current phase, hence in M, and rc = 5 counts it in C *)
+Lemma cur_ok_done cur s s3 i rc :
+  cur_ok cur s ->
+  (state (circ s3) = HalfOpen ->
+     state (circ s) = HalfOpen /\ phase (circ s3) = phase (circ s) /\ gstarts s3 = gstarts s /\
+     (ghand s3 = ghand s \/
+      (ghand s3 = ghand s + 1 /\ rc = 5 /\ exists st0, cs s i = Running st0 (Some (phase (circ s)))))) ->
+  (forall j, j <> i -> cs s3 j = cs s j) ->
+  (forall st0 p, cs s3 i <> Running st0 p) ->
+  cur_ok (acct_result cur i rc) s3.
+Proof.
+  intros Hcur Hst Hoth Hi Hho.
+  destruct (Hst Hho) as (Hs & Hph & Hgs & Hgh).
+  destruct (Hcur Hs) as (ns & nc & ms & -> & H1 & H2 & H3).
+  assert (Hmem : forall ms', (forall j, j <> i -> mem j ms = true -> mem j ms' = true) -> members_ok s3 ms').
+  { intros ms' Hms j st0 Hj. destruct (Nat.eq_dec j i) as [->|Hne].
+    - exfalso. eapply Hi. exact Hj.
+    - apply Hms; [exact Hne|]. rewrite Hoth, Hph in Hj by exact Hne. eapply H3. exact Hj. }
+  unfold acct_result.
+  destruct (((rc =? 1) || (rc =? 2) || (rc =? 5)) && mem i ms) eqn:E.
+  - apply andb_true_iff in E. destruct E as [E1 E2].
+    exists ns, (if rc =? 5 then nc + 1 else nc), (rem i ms). split; [reflexivity|].
+    split; [lia|]. split.
+    + destruct Hgh as [Hg|(Hg & -> & _)].
+      * destruct (rc =? 5); lia.
+      * rewrite Z.eqb_refl. lia.
+    + apply Hmem. intros j Hne Hj. apply mem_rem; assumption.
+  - exists ns, nc, ms. split; [reflexivity|]. split; [lia|]. split.
+    + destruct Hgh as [Hg|(Hg & -> & st0 & Hr)]; [lia|].
+      exfalso. specialize (H3 _ _ Hr). rewrite H3, andb_true_r in E. discriminate.
+    + apply Hmem. auto.
+Qed.
+
+Lemma started_poll_running cf s i start tr b : started (snd (poll_running cf s i start tr b)) = b.
+Proof. unfold poll_running. destruct (gate s i) as [[f|f| |]|]; reflexivity. Qed.
+
+Lemma cur_ok_poll_running cf s i start tr b cur :
+  cur_ok cur s -> cs s i = Running start tr ->
+  cur_ok (acct_result cur i (r (snd (poll_running cf s i start tr b))))
+         (fst (poll_running cf s i start tr b)).
+Proof.
+  intros Hcur Hcs.
+  assert (Hoth : forall j, j <> i -> cs (fst (poll_running cf s i start tr b)) j = cs s j).
+  { intros j Hne. rewrite cs_poll_running. apply Nat.eqb_neq in Hne. rewrite Hne. reflexivity. }
+  assert (Hi : gate s i <> None -> forall st0 p, cs (fst (poll_running cf s i start tr b)) i <> Running st0 p).
+  { intros Hg st0 p. rewrite cs_poll_running, Nat.eqb_refl. destruct (gate s i); [discriminate|congruence]. }
+  revert Hoth Hi. unfold poll_running. destruct (gate s i) as [[f|f| |]|]; cbn [fst snd r]; intros Hoth Hi.
+  - (* result recorded *)
+    eapply cur_ok_done; [exact Hcur| |exact Hoth|apply Hi; discriminate].
+    rewrite circ_gsync. cbn. intros Hho.
+    destruct (state (circ s)) eqn:Es;
+      try (exfalso; revert Hho; apply record_not_ho; congruence).
+    destruct (record_ho_same _ _ _ _ _ Es Hho) as (_&_&_&HP&_).
+    rewrite gsync_same by (cbn; exact HP). cbn. auto.
+  - eapply cur_ok_done; [exact Hcur| |exact Hoth|apply Hi; discriminate].
+    rewrite circ_gsync. cbn. intros Hho.
+    destruct (state (circ s)) eqn:Es;
+      try (exfalso; revert Hho; apply record_not_ho; congruence).
+    destruct (record_ho_same _ _ _ _ _ Es Hho) as (_&_&_&HP&_).
+    rewrite gsync_same by (cbn; exact HP). cbn. auto.
+  - (* inner panic: the guard is dropped unrecorded *)
+    eapply cur_ok_done; [exact Hcur| |exact Hoth|apply Hi; discriminate].
+    cbn. destruct tr as [p|]; cbn; [destruct (p =? phase (circ s)) eqn:E; cbn|]; auto.
+    intros Hho. repeat split; auto. right. apply Z.eqb_eq in E. subst p. repeat split. eexists. exact Hcs.
+  - (* classifier panic: no hand-back *)
+    eapply cur_ok_done; [exact Hcur| |exact Hoth|apply Hi; discriminate].
+    cbn. auto.
+  - (* still pending *)
+    rewrite acct_result_other by reflexivity. exact Hcur.
+Qed.
+
+Lemma cur_ok_frame cur s s' :
+  cur_ok cur s -> circ s' = circ s -> cs s' = cs s -> gstarts s' = gstarts s -> ghand s' = ghand s ->
+  cur_ok cur s'.
+Proof.
+  intros H Hc Hcs Hg Hh Hho. rewrite Hc in Hho. destruct (H Hho) as (ns & nc & ms & -> & H1 & H2 & H3).
+  exists ns, nc, ms. rewrite Hg, Hh. repeat split; auto.
+  intros j st0. rewrite Hcs, Hc. apply H3.
+Qed.
+
+Lemma cur_ok_not_ho cur s : state (circ s) <> HalfOpen -> cur_ok cur s.
+Proof. intros H Hho. contradiction. Qed.
+
+(* the end-of-event check never fires on a state satisfying the invariant *)
+Lemma c09_end_ok cf cur seen s :
+  cur_ok cur s -> Inv cf s ->
+  exists m', c09_end (permitted cf) cur seen (state (circ s)) = Some m' /\
+             m_prev m' = state (circ s) /\ m_seen m' = seen /\ cur_ok (m_cur m') s.
+Proof.
+  intros Hcur Hinv. unfold c09_end. destruct (state (circ s)) eqn:Es.
+  - eexists. repeat split. apply cur_ok_not_ho. congruence.
+  - eexists. repeat split. apply cur_ok_not_ho. congruence.
+  - destruct (Hcur Es) as (ns & nc & ms & -> & H1 & H2 & H3).
+    destruct Hinv as [_ _ _ Ha Hg _]. specialize (Ha Es).
+    assert (E : permitted cf <? ns - nc = false) by (apply Z.ltb_ge; lia).
+    rewrite E. eexists. repeat split. cbn. intros _. exists ns, nc, ms. auto.
+Qed.
+
+Lemma acct_ok cf m s e :
+  1 <= permitted cf -> Rel cf m s ->
+  exists cur seen,
+    c09_acct (permitted cf) m e (snd (step cf s e)) = Some (cur, seen) /\
+    cur_ok cur (step_st cf s e) /\
+    (forall i, mem i seen = false -> cs (step_st cf s e) i = Created).
+Proof.
+  intros Hp [Rp Rs Rc Ri Rl].
+  assert (Hseen : forall i, (e = Poll i \/ e = Drop i) ->
+            forall j, mem j (i :: m_seen m) = false -> cs (step_st cf s e) j = Created).
+  { intros i He j Hj. apply mem_cons_inv in Hj. destruct Hj as [Hne Hj].
+    rewrite cs_step_other; [apply Rs; exact Hj|].
+    intros i' [E|E]; destruct He as [He|He]; subst e; inversion E; subst; exact Hne. }
+  destruct e as [i|i|d|i o| | |].
+  - (* Poll *)
+    unfold c09_acct.
+    destruct (cs s i) as [|start tr| |] eqn:Ecs.
+    + (* a fresh caller *)
+      pose proof (Hseen i (or_introl eq_refl)) as Hsi.
+      unfold step_st, step in Hsi |- *. rewrite (poll_created cf s i Ecs) in Hsi |- *.
+      pose proof (try_acquire_spec (now s) cf (circ s)) as Hacq. cbn zeta in Hacq.
+      revert Hsi Hacq.
+      destruct (try_acquire (now s) cf (circ s)) as [c' ok] eqn:Eacq. cbn [fst snd].
+      intros Hsi (Hsy & Hrej & Hfull & Hho & Hoe & Hcl).
+      destruct ok; cbn [fst snd] in Hsi |- *.
+      * (* admitted *)
+        rewrite started_poll_running.
+        destruct (admit_state_fields s i c') as (F1 & F2 & F3 & F4).
+        assert (Hnf : is_full (permitted cf) (m_prev m) (m_cur m) = false).
+        { unfold is_full. rewrite Rp. destruct (state (circ s)) eqn:Es; try reflexivity.
+          destruct (Rc Es) as (ns & nc & ms & -> & H1 & H2 & H3).
+          apply Z.leb_gt.
+          destruct (Z_lt_le_dec (admitted (circ s)) (permitted cf)) as [Hlt|Hge].
+          - destruct Ri as [_ _ _ _ Hg _]. lia.
+          - destruct (Hfull eq_refl Hge) as [Hf _]. discriminate. }
+        rewrite Hnf, andb_false_r. cbn [andb].
+        eexists _, _. split; [reflexivity|]. split; [|exact Hsi].
+        apply cur_ok_poll_running; [|rewrite F3; unfold upd; rewrite Nat.eqb_refl; reflexivity].
+        (* the state right after admission *)
+        intros Hho2. rewrite F1 in Hho2. unfold acct_start. rewrite Rp.
+        destruct (state (circ s)) eqn:Es.
+        -- destruct (Hcl eq_refl) as [_ ->]. congruence.
+        -- (* Open -> HalfOpen: a new phase *)
+           destruct (Z_lt_le_dec (now s - last_change (circ s)) (wait_open cf)) as [Hlt|Hge].
+           { destruct (Hrej eq_refl Hlt) as [Hf _]. discriminate. }
+           destruct (Hoe eq_refl Hge) as (_ & E1 & E2 & E3 & E4).
+           exists 1, 0, [i]. split; [reflexivity|].
+           unfold admit_state, tr_of. rewrite E1. cbn.
+           rewrite !gsync_diff by (cbn; lia). cbn. repeat split; try lia.
+           intros j st0. cbn. unfold upd. destruct (Nat.eqb j i) eqn:Ej.
+           ++ intros _. apply Nat.eqb_eq in Ej. subst j. apply mem_cons_same.
+           ++ intros Hj. specialize (Rl _ _ _ Hj). lia.
+        -- (* HalfOpen: one more trial of the phase *)
+           destruct (Z_lt_le_dec (admitted (circ s)) (permitted cf)) as [Hlt|Hge].
+           2:{ destruct (Hfull eq_refl Hge) as [Hf _]. discriminate. }
+           destruct (Hho eq_refl Hlt) as (_ & E1 & E2 & E3 & E4).
+           destruct (Rc Es) as (ns & nc & ms & -> & H1 & H2 & H3).
+           exists (ns + 1), nc, (i :: ms). split; [reflexivity|].
+           unfold admit_state, tr_of. rewrite E1. cbn.
+           rewrite !gsync_same by (cbn; lia). cbn. repeat split; try lia.
+           intros j st0. cbn. unfold upd. destruct (Nat.eqb j i) eqn:Ej.
+           ++ intros _. apply Nat.eqb_eq in Ej. subst j. apply mem_cons_same.
+           ++ rewrite E2. intros Hj. apply mem_cons. eapply H3. exact Hj.
+      * (* rejected *)
+        assert (Hc : c' = circ s).
+        { destruct (state (circ s)) eqn:Es.
+          - destruct (Hcl eq_refl). discriminate.
+          - destruct (Z_lt_le_dec (now s - last_change (circ s)) (wait_open cf)) as [Hlt|Hge].
+            + apply (Hrej eq_refl Hlt).
+            + destruct (Hoe eq_refl Hge) as [Hf _]. discriminate.
+          - destruct (Z_lt_le_dec (admitted (circ s)) (permitted cf)) as [Hlt|Hge].
+            + destruct (Hho eq_refl Hlt) as [Hf _]. discriminate.
+            + apply (Hfull eq_refl Hge). }
+        subst c'.
+        assert (Hbad : (false || negb (((if has_fallback cf then 4 else 3) =? 3) ||
+                                       ((if has_fallback cf then 4 else 3) =? 4))) = false)
+          by (destruct (has_fallback cf); reflexivity).
+        cbn [r started fst snd]. rewrite Hbad, andb_false_r.
+        rewrite acct_result_other by (destruct (has_fallback cf); reflexivity).
+        eexists _, _. split; [reflexivity|]. split; [|exact Hsi].
+        intros Hho2. cbn in Hho2. destruct (Rc Hho2) as (ns & nc & ms & -> & H1 & H2 & H3).
+        exists ns, nc, ms. cbn. repeat split; auto.
+        intros j st0. cbn. unfold upd. destruct (Nat.eqb j i); [discriminate|]. apply H3.
+    + (* a caller whose inner call is in flight *)
+      assert (Hfr : mem i (m_seen m) = true).
+      { destruct (mem i (m_seen m)) eqn:E; [reflexivity|]. rewrite (Rs _ E) in Ecs. discriminate. }
+      rewrite Hfr. cbn [negb andb].
+      pose proof (Hseen i (or_introl eq_refl)) as Hsi.
+      unfold step_st, step, poll in Hsi |- *. cbn [fst snd] in Hsi |- *. cbn in Hsi |- *.
+      rewrite Ecs in Hsi |- *.
+      rewrite started_poll_running.
+      eexists _, _. split; [reflexivity|]. split; [|exact Hsi].
+      apply cur_ok_poll_running; [|exact Ecs].
+      eapply cur_ok_frame; [exact Rc|reflexivity..].
+    + assert (Hfr : mem i (m_seen m) = true).
+      { destruct (mem i (m_seen m)) eqn:E; [reflexivity|]. rewrite (Rs _ E) in Ecs. discriminate. }
+      rewrite Hfr. cbn [negb andb].
+      pose proof (Hseen i (or_introl eq_refl)) as Hsi.
+      unfold step_st, step, poll in Hsi |- *. cbn [fst snd] in Hsi |- *. cbn in Hsi |- *.
+      rewrite Ecs in Hsi |- *. cbn in Hsi |- *.
+      rewrite acct_result_other by reflexivity.
+      eexists _, _. split; [reflexivity|]. split; [|exact Hsi].
+      eapply cur_ok_frame; [exact Rc|reflexivity..].
+    + assert (Hfr : mem i (m_seen m) = true).
+      { destruct (mem i (m_seen m)) eqn:E; [reflexivity|]. rewrite (Rs _ E) in Ecs. discriminate. }
+      rewrite Hfr. cbn [negb andb].
+      pose proof (Hseen i (or_introl eq_refl)) as Hsi.
+      unfold step_st, step, poll in Hsi |- *. cbn [fst snd] in Hsi |- *. cbn in Hsi |- *.
+      rewrite Ecs in Hsi |- *. cbn in Hsi |- *.
+      rewrite acct_result_other by reflexivity.
+      eexists _, _. split; [reflexivity|]. split; [|exact Hsi].
+      eapply cur_ok_frame; [exact Rc|reflexivity..].
+  - (* Drop *)
+    unfold c09_acct. eexists _, _. split; [reflexivity|]. split; [|apply (Hseen i); auto].
+    unfold step_st, step. cbn [fst]. unfold drop. cbn.
+    destruct (cs s i) as [|start tr| |] eqn:Ecs.
+    + eapply cur_ok_done; [exact Rc| | |].
+      * cbn. auto.
+      * intros j Hne. cbn. unfold upd. apply Nat.eqb_neq in Hne. rewrite Hne. reflexivity.
+      * intros st0 p. cbn. unfold upd. rewrite Nat.eqb_refl. discriminate.
+    + eapply cur_ok_done; [exact Rc| | |].
+      * cbn. destruct tr as [p|]; cbn; [destruct (p =? phase (circ s)) eqn:E; cbn|]; auto.
+        intros Hho. repeat split; auto. right. apply Z.eqb_eq in E. subst p. repeat split. eexists. exact Ecs.
+      * intros j Hne. cbn.
+        replace (cs (ghandback tr (s <| woken := upd (woken s) i false |>))) with (cs s)
+          by (destruct tr as [q|]; cbn; [destruct (_ =? _)|]; reflexivity).
+        unfold upd. apply Nat.eqb_neq in Hne. rewrite Hne. reflexivity.
+      * intros st0 p. cbn. unfold upd. rewrite Nat.eqb_refl. discriminate.
+    + eapply cur_ok_done; [exact Rc| | |].
+      * cbn. auto.
+      * intros j Hne. reflexivity.
+      * intros st0 p. cbn. rewrite Ecs. discriminate.
+    + eapply cur_ok_done; [exact Rc| | |].
+      * cbn. auto.
+      * intros j Hne. reflexivity.
+      * intros st0 p. cbn. rewrite Ecs. discriminate.
+  - (* Advance *)
+    eexists _, _. split; [reflexivity|]. cbn. split; [|exact Rs].
+    eapply cur_ok_frame; [exact Rc|reflexivity..].
+  - (* Complete *)
+    eexists _, _. split; [reflexivity|]. unfold step_st, step, complete. cbn [fst].
+    destruct (gate s i); (split; [eapply cur_ok_frame; [exact Rc|reflexivity..]|exact Rs]).
+  - eexists _, _. split; [reflexivity|]. unfold step_st, step. cbn [fst]. split.
+    + apply cur_ok_not_ho. rewrite circ_gsync. cbn. unfold force_open. rewrite transition_state. discriminate.
+    + intros j Hj. unfold gsync. destruct (_ =? _); cbn; apply Rs; exact Hj.
+  - eexists _, _. split; [reflexivity|]. unfold step_st, step. cbn [fst]. split.
+    + apply cur_ok_not_ho. rewrite circ_gsync. cbn. unfold force_closed. rewrite transition_state. discriminate.
+    + intros j Hj. unfold gsync. destruct (_ =? _); cbn; apply Rs; exact Hj.
+  - eexists _, _. split; [reflexivity|]. unfold step_st, step. cbn [fst]. split.
+    + apply cur_ok_not_ho. rewrite circ_gsync. cbn. unfold reset. cbn. rewrite transition_state. discriminate.
+    + intros j Hj. unfold gsync. destruct (_ =? _); cbn; apply Rs; exact Hj.
+Qed.
+
+Lemma rel_step cf m s e :
+  1 <= permitted cf -> Rel cf m s ->
+  exists m', c09_step (permitted cf) m e (snd (step cf s e)) (state (circ (step_st cf s e))) = Some m' /\
+             Rel cf m' (step_st cf s e).
+Proof.
+  intros Hp HR.
+  destruct (acct_ok cf m s e Hp HR) as (cur & seen & Ha & Hc & Hs).
+  pose proof (step_inv cf s e Hp (r_inv _ _ _ HR)) as Hinv'.
+  destruct (c09_end_ok cf cur seen _ Hc Hinv') as (m' & He & P1 & P2 & P3).
+  exists m'. unfold c09_step. rewrite Ha. split; [exact He|].
+  constructor; [exact P1|rewrite P2; exact Hs|exact P3|exact Hinv'|].
+  apply phase_le_step. apply (r_ple _ _ _ HR).
+Qed.
+
+Lemma rel_init cf : Rel cf c09_init init.
+Proof.
+  constructor; cbn.
+  - reflexivity.
+  - reflexivity.
+  - apply cur_ok_not_ho. cbn. discriminate.
+  - apply inv_init.
+  - apply phase_le_init.
+Qed.
+
+Lemma c09_run_accepts cf : 1 <= permitted cf -> forall evs m s, Rel cf m s -> c09_run cf m s evs = true.
+Proof.
+  intros Hp. induction evs as [|e t IH]; intros m s HR; cbn [c09_run]; [reflexivity|].
+  destruct (rel_step cf m s e Hp HR) as (m' & -> & HR'). apply IH. exact HR'.
+Qed.
+
+(* the monitor accepts every trace of the model *)
+Lemma monitor_accepts cf evs : 1 <= permitted cf -> c09_run cf c09_init init evs = true.
+Proof. intros Hp. apply c09_run_accepts; [exact Hp|apply rel_init]. Qed.
+
+(* the monitor is not vacuous: it raises an alarm on an over-admission ... *)
+Example ex_monitor_alarm_R :
+  c09_step 1 (mkM HalfOpen (Some (1, 0, [2%nat])) [2%nat]) (Poll 3%nat)
+           {| r := 0; started := true |} HalfOpen = None.
+Proof. reflexivity. Qed.
+(* ... also when the over-admitted call ends the phase in the same poll ... *)
+Example ex_monitor_alarm_R' :
+  c09_step 1 (mkM HalfOpen (Some (1, 0, [2%nat])) [2%nat]) (Poll 3%nat)
+           {| r := 2; started := true |} Open = None.
+Proof. reflexivity. Qed.
+(* ... on a start that no poll of a fresh caller explains ... *)
+Example ex_monitor_alarm_B :
+  c09_step 1 (mkM HalfOpen (Some (1, 0, [2%nat])) [2%nat; 3%nat]) (Poll 3%nat)
+           {| r := 0; started := true |} HalfOpen = None.
+Proof. reflexivity. Qed.
+(* ... and a slot is given back only for a trial of the CURRENT phase: caller 7 (a trial of an
+   earlier phase, not in M) being dropped does not make room for caller 3 *)
+Example ex_monitor_alarm_stale :
+  match c09_step 1 (mkM HalfOpen (Some (1, 0, [2%nat])) [2%nat; 7%nat]) (Drop 7%nat) no_obs HalfOpen with
+  | Some m' => c09_step 1 m' (Poll 3%nat) {| r := 0; started := true |} HalfOpen
+  | None => None
+  end = None.
+Proof. reflexivity. Qed.
+(* while the drop of the running trial 2 does *)
+Example ex_monitor_handback :
+  match c09_step 1 (mkM HalfOpen (Some (1, 0, [2%nat])) [2%nat; 7%nat]) (Drop 2%nat) no_obs HalfOpen with
+  | Some m' => c09_step 1 m' (Poll 3%nat) {| r := 0; started := true |} HalfOpen
+  | None => None
+  end = Some (mkM HalfOpen (Some (2, 1, [3%nat])) [3%nat; 2%nat; 2%nat; 7%nat]).
+Proof. reflexivity. Qed.
+
+(* ================= C09: trial calls in the wrapped service at one instant =================
+   No ghost counters: a caller "holds a trial" when its inner call is in flight under a trial
+   guard of the breaker's current phase.  Any set of distinct such callers has at most
+   [admitted] elements (so the guard's saturating subtraction never saturates), and [admitted]
+   is at most permitted_calls_in_half_open while half-open. *)
+Definition holds_trial (s : st) (j : nat) : Prop :=
+  exists st0, cs s j = Running st0 (Some (phase (circ s))).
+
+Definition live_bound (s : st) : Prop :=
+  forall l, NoDup l -> (forall j, In j l -> holds_trial s j) ->
+            Z.of_nat (length l) <= admitted (circ s).
+
+Lemma lb_subset s s' :
+  live_bound s -> (forall j, holds_trial s' j -> holds_trial s j) ->
+  admitted (circ s) <= admitted (circ s') -> live_bound s'.
+Proof.
+  intros H Hsub Ha l Hnd Hl. specialize (H l Hnd). etransitivity; [apply H|exact Ha].
+  intros j Hj. apply Hsub. apply Hl. exact Hj.
+Qed.
+
+Lemma lb_none s' : (forall j, ~ holds_trial s' j) -> 0 <= admitted (circ s') -> live_bound s'.
+Proof.
+  intros Hn Ha l _ Hl. destruct l as [|j l]; [cbn; lia|]. exfalso. apply (Hn j). apply Hl. left. reflexivity.
+Qed.
+
+Lemma lb_handback s s' i :
+  live_bound s -> holds_trial s i ->
+  (forall j, holds_trial s' j -> j <> i /\ holds_trial s j) ->
+  admitted (circ s') = Z.max 0 (admitted (circ s) - 1) -> live_bound s'.
+Proof.
+  intros H Hi Hsub Ha l Hnd Hl.
+  assert (Hni : ~ In i l) by (intros Hin; destruct (Hsub _ (Hl _ Hin)) as [Hne _]; congruence).
+  specialize (H (i :: l)). cbn [length] in H. rewrite Nat2Z.inj_succ in H.
+  assert (Z.succ (Z.of_nat (length l)) <= admitted (circ s)).
+  { apply H; [constructor; assumption|]. intros j [<-|Hj]; [exact Hi|]. apply Hsub. apply Hl. exact Hj. }
+  rewrite Ha. lia.
+Qed.
+
+Lemma length_rem_nodup i l : NoDup l -> (length l <= S (length (rem i l)))%nat.
+Proof.
+  unfold rem. induction l as [|x l IH]; intros Hnd; cbn; [lia|].
+  inversion Hnd as [|? ? Hx Hnd']; subst.
+  destruct (Nat.eqb i x) eqn:E; cbn.
+  - apply Nat.eqb_eq in E. subst x.
+    assert (Hf : filter (fun x => negb (Nat.eqb i x)) l = l).
+    { clear - Hx. induction l as [|y l IH]; cbn; [reflexivity|].
+      destruct (Nat.eqb i y) eqn:E; cbn.
+      - apply Nat.eqb_eq in E. subst y. exfalso. apply Hx. left. reflexivity.
+      - f_equal. apply IH. intros H. apply Hx. right. exact H. }
+    rewrite Hf. lia.
+  - specialize (IH Hnd'). lia.
+Qed.
+
+Lemma nodup_rem i l : NoDup l -> NoDup (rem i l).
+Proof. intros H. unfold rem. apply NoDup_filter. exact H. Qed.
+
+Lemma in_rem i j l : In j (rem i l) -> j <> i /\ In j l.
+Proof.
+  unfold rem. rewrite filter_In. intros [H1 H2]. split; [|exact H1].
+  apply negb_true_iff in H2. apply Nat.eqb_neq in H2. congruence.
+Qed.
+
+Lemma lb_admit s s' i :
+  live_bound s -> (forall j, holds_trial s' j -> j = i \/ holds_trial s j) ->
+  admitted (circ s') = admitted (circ s) + 1 -> live_bound s'.
+Proof.
+  intros H Hsub Ha l Hnd Hl.
+  pose proof (length_rem_nodup i l Hnd) as Hlen.
+  specialize (H (rem i l) (nodup_rem i l Hnd)).
+  assert (Z.of_nat (length (rem i l)) <= admitted (circ s)).
+  { apply H. intros j Hj. destruct (in_rem _ _ _ Hj) as [Hne Hin].
+    destruct (Hsub _ (Hl _ Hin)) as [->|Hh]; [congruence|exact Hh]. }
+  rewrite Ha. lia.
+Qed.
+
+Lemma lb_first s' i : (forall j, holds_trial s' j -> j = i) -> admitted (circ s') = 1 -> live_bound s'.
+Proof.
+  intros Hsub Ha l Hnd Hl. rewrite Ha.
+  destruct l as [|a [|b l]]; cbn; try lia. exfalso.
+  assert (a = i) by (apply Hsub, Hl; left; reflexivity).
+  assert (b = i) by (apply Hsub, Hl; right; left; reflexivity).
+  subst. inversion Hnd as [|? ? Hx _]. apply Hx. left. reflexivity.
+Qed.
+
+(* a transition-or-same of the circuit, callers unchanged or one of them finished *)
+Lemma lb_trans now0 s s' :
+  live_bound s -> phase_le s -> trans_or_same now0 (circ s) (circ s') ->
+  (forall j st0 p, cs s' j = Running st0 p -> cs s j = Running st0 p) -> live_bound s'.
+Proof.
+  intros H Hple [(A1&A2&A3&A4&A5)|(B1&B2&B3&B4&B5)] Hcs.
+  - eapply lb_subset; [exact H| |lia].
+    intros j [st0 Hj]. exists st0. rewrite <- A4. apply Hcs. exact Hj.
+  - apply lb_none; [|lia]. intros j [st0 Hj]. apply Hcs in Hj. specialize (Hple _ _ _ Hj). lia.
+Qed.
+
+Lemma lb_poll_running cf s i start tr b :
+  live_bound s -> phase_le s -> cs s i = Running start tr ->
+  live_bound (fst (poll_running cf s i start tr b)).
+Proof.
+  intros H Hple Hcs.
+  assert (Hsub : forall j st0 p, cs (fst (poll_running cf s i start tr b)) j = Running st0 p ->
+                                 (j <> i \/ gate s i = None) /\ cs s j = Running st0 p).
+  { intros j st0 p. rewrite cs_poll_running. destruct (Nat.eqb j i) eqn:E.
+    - apply Nat.eqb_eq in E. subst j. destruct (gate s i); [discriminate|]. auto.
+    - apply Nat.eqb_neq in E. auto. }
+  revert Hsub. unfold poll_running. destruct (gate s i) as [[f|f| |]|] eqn:Eg; cbn [fst]; intros Hsub.
+  - eapply (lb_trans (now s)); [exact H|exact Hple| |intros j st0 p Hj; apply (Hsub _ _ _ Hj)].
+    rewrite circ_gsync. cbn. apply record_spec.
+  - eapply (lb_trans (now s)); [exact H|exact Hple| |intros j st0 p Hj; apply (Hsub _ _ _ Hj)].
+    rewrite circ_gsync. cbn. apply record_spec.
+  - (* inner panic: hand-back *)
+    destruct tr as [p|]; [destruct (p =? phase (circ s)) eqn:E|].
+    + apply Z.eqb_eq in E. subst p.
+      eapply lb_handback with (i := i); [exact H|eexists; exact Hcs| |].
+      * intros j [st0 Hj]. revert Hj. cbn. rewrite Z.eqb_refl. cbn. intros Hj.
+        destruct (Hsub j st0 _ Hj) as [[Hne|Hf] Hc]; [|discriminate].
+        split; [exact Hne|]. eexists. exact Hc.
+      * cbn. rewrite Z.eqb_refl. reflexivity.
+    + eapply lb_subset; [exact H| |cbn; rewrite E; cbn; lia].
+      intros j [st0 Hj]. revert Hj. cbn. rewrite E. cbn. intros Hj.
+      destruct (Hsub j st0 _ Hj) as [_ Hc]. eexists. exact Hc.
+    + eapply lb_subset; [exact H| |cbn; lia].
+      intros j [st0 Hj]. revert Hj. cbn. intros Hj.
+      destruct (Hsub j st0 _ Hj) as [_ Hc]. eexists. exact Hc.
+  - (* classifier panic: the slot stays taken *)
+    eapply lb_subset; [exact H| |cbn; lia].
+    intros j [st0 Hj]. revert Hj. cbn. intros Hj.
+    destruct (Hsub j st0 _ Hj) as [_ Hc]. eexists. exact Hc.
+  - exact H.
+Qed.
+
+Lemma lb_step cf s e :
+  live_bound s -> phase_le s -> live_bound (step_st cf s e).
+Proof.
+  intros H Hple. unfold step_st, step. destruct e as [i|i|d|i o| | |]; cbn [fst].
+  - destruct (cs s i) as [|start tr| |] eqn:Ecs.
+    + rewrite (poll_created cf s i Ecs).
+      pose proof (try_acquire_spec (now s) cf (circ s)) as Hacq. cbn zeta in Hacq.
+      pose proof (try_acquire_phase (now s) cf (circ s)) as Hph.
+      destruct (try_acquire (now s) cf (circ s)) as [c' ok] eqn:Eacq. cbn [fst snd] in *.
+      destruct Hacq as (Hsy & Hrej & Hfull & Hho & Hoe & Hcl).
+      destruct (admit_state_fields s i c') as (F1 & F2 & F3 & F4).
+      assert (H0 : 0 <= admitted (circ s)) by (apply (H [] (NoDup_nil _)); intros j []).
+      destruct ok; cbn [fst].
+      * apply lb_poll_running.
+        -- (* the state right after admission *)
+           destruct (state (circ s)) eqn:Es.
+           ++ destruct (Hcl eq_refl) as [_ ->].
+              eapply lb_subset; [exact H| |rewrite F1; lia].
+              intros j [st0 Hj]. rewrite F1, F3 in Hj. unfold upd, tr_of in Hj. rewrite Es in Hj.
+              destruct (Nat.eqb j i); [discriminate|]. eexists. exact Hj.
+           ++ destruct (Z_lt_le_dec (now s - last_change (circ s)) (wait_open cf)) as [Hlt|Hge].
+              { destruct (Hrej eq_refl Hlt) as [Hf _]. discriminate. }
+              destruct (Hoe eq_refl Hge) as (_ & E1 & E2 & E3 & E4).
+              apply lb_first with (i := i); [|rewrite F1; exact E3].
+              intros j [st0 Hj]. rewrite F1, F3 in Hj. unfold upd in Hj.
+              destruct (Nat.eqb j i) eqn:Ej; [apply Nat.eqb_eq in Ej; exact Ej|].
+              specialize (Hple _ _ _ Hj). lia.
+           ++ destruct (Z_lt_le_dec (admitted (circ s)) (permitted cf)) as [Hlt|Hge].
+              2:{ destruct (Hfull eq_refl Hge) as [Hf _]. discriminate. }
+              destruct (Hho eq_refl Hlt) as (_ & E1 & E2 & E3 & E4).
+              apply lb_admit with (s := s) (i := i); [exact H| |rewrite F1; exact E3].
+              intros j [st0 Hj]. rewrite F1, F3 in Hj. unfold upd in Hj.
+              destruct (Nat.eqb j i) eqn:Ej; [left; apply Nat.eqb_eq in Ej; exact Ej|].
+              right. rewrite E2 in Hj. eexists. exact Hj.
+        -- intros j st0 p. rewrite F1, F3. unfold upd. destruct (Nat.eqb j i).
+           ++ unfold tr_of. destruct (state c'); intros Hc; inversion Hc; lia.
+           ++ intros Hc. specialize (Hple _ _ _ Hc). lia.
+        -- rewrite F3. unfold upd. rewrite Nat.eqb_refl. reflexivity.
+      * assert (Hc : c' = circ s).
+        { destruct (state (circ s)) eqn:Es.
+          - destruct (Hcl eq_refl). discriminate.
+          - destruct (Z_lt_le_dec (now s - last_change (circ s)) (wait_open cf)) as [Hlt|Hge].
+            + apply (Hrej eq_refl Hlt).
+            + destruct (Hoe eq_refl Hge) as [Hf _]. discriminate.
+          - destruct (Z_lt_le_dec (admitted (circ s)) (permitted cf)) as [Hlt|Hge].
+            + destruct (Hho eq_refl Hlt) as [Hf _]. discriminate.
+            + apply (Hfull eq_refl Hge). }
+        subst c'. eapply lb_subset; [exact H| |cbn; lia].
+        intros j [st0 Hj]. revert Hj. cbn. unfold upd. destruct (Nat.eqb j i); [discriminate|].
+        intros Hj. eexists. exact Hj.
+    + unfold poll. cbn. rewrite Ecs.
+      match goal with |- live_bound (fst (poll_running cf ?s1 i start tr false)) =>
+        apply (lb_poll_running cf s1 i start tr false) end; [exact H|exact Hple|exact Ecs].
+    + unfold poll. cbn. rewrite Ecs. exact H.
+    + unfold poll. cbn. rewrite Ecs. exact H.
+  - unfold drop. cbn. destruct (cs s i) as [|start tr| |] eqn:Ecs; try exact H.
+    + eapply lb_subset; [exact H| |cbn; lia].
+      intros j [st0 Hj]. revert Hj. cbn. unfold upd. destruct (Nat.eqb j i); [discriminate|].
+      intros Hj. eexists. exact Hj.
+    + destruct tr as [p|]; [destruct (p =? phase (circ s)) eqn:E|].
+      * apply Z.eqb_eq in E. subst p.
+        eapply lb_handback with (i := i); [exact H|eexists; exact Ecs| |].
+        -- intros j [st0 Hj]. revert Hj. cbn. rewrite Z.eqb_refl. cbn. unfold upd.
+           destruct (Nat.eqb j i) eqn:Ej; [discriminate|]. intros Hj.
+           split; [apply Nat.eqb_neq; exact Ej|]. eexists. exact Hj.
+        -- cbn. rewrite Z.eqb_refl. reflexivity.
+      * eapply lb_subset; [exact H| |cbn; rewrite E; cbn; lia].
+        intros j [st0 Hj]. revert Hj. cbn. rewrite E. cbn. unfold upd.
+        destruct (Nat.eqb j i); [discriminate|]. intros Hj. eexists. exact Hj.
+      * eapply lb_subset; [exact H| |cbn; lia].
+        intros j [st0 Hj]. revert Hj. cbn. unfold upd.
+        destruct (Nat.eqb j i); [discriminate|]. intros Hj. eexists. exact Hj.
+  - exact H.
+  - unfold complete. destruct (gate s i); exact H.
+  - eapply (lb_trans (now s)); [exact H|exact Hple| |].
+    + rewrite circ_gsync. cbn. apply transition_to_spec.
+    + intros j st0 p. unfold gsync. destruct (_ =? _); cbn; auto.
+  - eapply (lb_trans (now s)); [exact H|exact Hple| |].
+    + rewrite circ_gsync. cbn. apply transition_to_spec.
+    + intros j st0 p. unfold gsync. destruct (_ =? _); cbn; auto.
+  - eapply (lb_trans (now s)); [exact H|exact Hple| |].
+    + rewrite circ_gsync. cbn.
+      eapply trans_or_same_post; [apply transition_to_spec|apply clear_window_ctl].
+    + intros j st0 p. unfold gsync. destruct (_ =? _); cbn; auto.
+Qed.
+
+Lemma lb_init : live_bound init.
+Proof. apply lb_none; [|cbn; lia]. intros j [st0 Hj]. cbn in Hj. discriminate. Qed.
+
+Lemma reach_live_bound cf evs :
+  Forall (fun s => live_bound s /\ phase_le s) (states (step_st cf) init evs).
+Proof.
+  apply reach_inv; [split; [apply lb_init|apply phase_le_init]|].
+  intros s e [H1 H2]. split; [apply lb_step; assumption|apply phase_le_step; assumption].
+Qed.
+
+(* at every instant of a half-open phase at most permitted_calls_in_half_open trial calls of the
+   phase are in the wrapped service: any set of distinct callers whose inner call is in flight
+   under a trial guard of the current phase has at most [admitted] <= permitted elements *)
+Lemma trials_in_flight cf evs :
+  1 <= permitted cf ->
+  Forall (fun s => forall l, NoDup l -> (forall j, In j l -> holds_trial s j) ->
+                     Z.of_nat (length l) <= admitted (circ s) /\
+                     (state (circ s) = HalfOpen -> Z.of_nat (length l) <= permitted cf))
+         (states (step_st cf) init evs).
+Proof.
+  intros Hp. pose proof (reach_live_bound cf evs) as H1. pose proof (reach_Inv cf evs Hp) as H2.
+  rewrite Forall_forall in *. intros s Hs l Hnd Hl.
+  destruct (H1 s Hs) as [Hlb _]. specialize (Hlb l Hnd Hl).
+  split; [exact Hlb|]. intros Hho. pose proof (i_adm _ _ (H2 s Hs) Hho). lia.
+Qed.
+
+(* hence the hand-back's saturating subtraction never saturates: a live trial guard of the
+   current phase implies admitted >= 1 *)
+Lemma handback_exact cf evs :
+  Forall (fun s => forall j, holds_trial s j -> 1 <= admitted (circ s))
+         (states (step_st cf) init evs).
+Proof.
+  eapply Forall_impl; [|apply (reach_live_bound cf evs)]. intros s [Hlb _] j Hj.
+  apply (Hlb [j]); [constructor; [intros []|constructor]|]. intros k [<-|[]]. exact Hj.
+Qed.
+
+Example ex_trials_in_flight :
+  let cf := mkCfg false 2 100 2 1 2 false 50 1 2 10 2 false in
+  let evs := [Poll 0%nat; Complete 0%nat (OErr true); Poll 0%nat;
+              Poll 1%nat; Complete 1%nat (OErr true); Poll 1%nat;
+              Advance 10; Poll 2%nat; Poll 3%nat; Poll 4%nat] in
+  let s := fold_left (step_st cf) evs init in
+  state (circ s) = HalfOpen /\ holds_trial s 2%nat /\ holds_trial s 3%nat /\ cs s 4%nat = Done.
+Proof. vm_compute. repeat split; eexists; reflexivity. Qed.
+
+(* The LITERAL reading "at most permitted trial calls reach the wrapped service in one half-open
+   phase" is false once trial calls may end without an outcome, even with no cancellation by the
+   caller at all: each panicking trial hands its slot back (inner panics are among "all outcomes
+   of the trial calls").  permitted = 1, three trial calls started in one phase, no Drop. *)
+Lemma literal_bound_refuted :
+  exists (cf : cfg) (evs0 evs : list ev),
+    1 <= permitted cf /\
+    let s := fold_left (step_st cf) evs0 init in
+    state (circ s) <> HalfOpen /\ stays_ho cf s evs /\ (forall i, ~ In (Drop i) evs) /\
+    permitted cf < nstarts cf s evs.
+Proof.
+  exists (mkCfg false 2 100 2 1 2 false 50 1 2 10 1 false).
+  exists [Poll 0%nat; Complete 0%nat (OErr true); Poll 0%nat;
+          Poll 1%nat; Complete 1%nat (OErr true); Poll 1%nat; Advance 10].
+  exists [Poll 2%nat; Complete 2%nat OPanic; Poll 2%nat; Poll 3%nat; Complete 3%nat OPanic; Poll 3%nat;
+          Poll 4%nat].
+  split; [cbn; lia|]. cbv zeta. split; [vm_compute; discriminate|].
+  split; [vm_compute; repeat split|]. split.
+  - intros i H. cbn in H. repeat (destruct H as [H|H]; [discriminate|]). exact H.
+  - vm_compute. reflexivity.
+Qed.
